@@ -69,9 +69,10 @@ type runRec struct {
 	ptr2ix    sync.Map // *mpb.Bar -> spec index
 	addFailed []atomic.Bool
 
-	listenerCalls [][]int32 // [bar][listener ordinal]
-	listenerN     []int
-	renderK       []int64 // per bar render counter (marker)
+	listenerCalls  [][]int32 // [bar][listener ordinal]
+	listenerAtWait [][]int32 // the same counters read the moment Progress.Wait returned
+	listenerN      []int
+	renderK        []int64 // per bar render counter (marker)
 
 	p              *mpb.Progress
 	cancel         context.CancelFunc
@@ -319,6 +320,9 @@ type listenerDec struct {
 func (l *listenerDec) Decor(decor.Statistics) (string, int) { return l.Format(l.text) }
 func (l *listenerDec) OnShutdown() {
 	tick()
+	if l.ord%3 == 1 {
+		time.Sleep(time.Duration(200+l.ord*300) * time.Microsecond) // a listener that takes its time (flushing a log, say)
+	}
 	if l.ord%2 == 0 {
 		// a listener may look at its own bar (e.g. to log the final count): the
 		// getters are documented to work while a bar shuts down and afterwards
@@ -831,7 +835,16 @@ func (rr *runRec) containerOptions() []mpb.ContainerOption {
 			opts = append(opts, mpb.WithAutoRefresh(), mpb.WithRefreshRate(time.Duration(sc.RefreshUS)*time.Microsecond))
 		case "manual":
 			rr.manualCh = make(chan interface{})
-			opts = append(opts, mpb.WithManualRefresh(rr.manualCh))
+			// both refresh options given, in either order: the manual one wins whatever
+			// the order (decided from the scenario seed, so a replay does the same)
+			switch sc.Seed % 6 {
+			case 0:
+				opts = append(opts, mpb.WithManualRefresh(rr.manualCh), mpb.WithAutoRefresh())
+			case 3:
+				opts = append(opts, mpb.WithAutoRefresh(), mpb.WithManualRefresh(rr.manualCh))
+			default:
+				opts = append(opts, mpb.WithManualRefresh(rr.manualCh))
+			}
 		}
 	}
 	if sc.Q >= 0 {
@@ -985,6 +998,13 @@ func (rr *runRec) execute() {
 	}
 	rr.tWaitInv.Store(tick())
 	rr.p.Wait()
+	// "notified ... before Wait returns": the counters as they stand at this very moment
+	rr.listenerAtWait = make([][]int32, len(rr.listenerCalls))
+	for i := range rr.listenerCalls {
+		for k := range rr.listenerCalls[i] {
+			rr.listenerAtWait[i] = append(rr.listenerAtWait[i], atomic.LoadInt32(&rr.listenerCalls[i][k]))
+		}
+	}
 	rr.tWaitRet.Store(tick())
 	if sc.WaitEarly {
 		joinClients()
